@@ -22,6 +22,7 @@
 -/
 import Golib.Tcp.Drain
 import Golib.Tcp.WireLink
+import Golib.Tcp.Histories
 
 namespace C06
 open Tcp
@@ -231,9 +232,9 @@ theorem idle_connection_never_fails (hl : cfg.sendLocked = true) (hra : cfg.rear
     that was accepted (Send / Put returned success) is still queued, is being sent by process(), or
     lies whole in what a connection carried and the peer received. -/
 theorem healthy_no_loss (hl : cfg.sendLocked = true) (hbg : cfg.bgLocked = true) (hac : cfg.acLocked = true)
-    (hpl : cfg.procLocked = true) (acts : List Act) (s : St)
+    (hpl : cfg.procLocked = true) (hrr : cfg.recoverReports = true) (acts : List Act) (s : St)
     (hh : Healthy acts) (h : run cfg bytesOf acts init = some s) : NothingLost bytesOf s :=
-  no_loss_locked cfg bytesOf hl hbg hac hpl acts s hh h
+  no_loss_locked cfg bytesOf hl hbg hac hpl hrr acts s hh h
 
 /-- Whatever the other locks: the same holds along schedules that additionally contain neither
     the racy background dial (`bgDialOk`) nor a reconfiguration. -/
@@ -244,13 +245,118 @@ theorem healthy_no_loss_partial (hl : cfg.sendLocked = true) (acts : List Act) (
 /-- once the queue is drained and process() is idle, every accepted send is whole on the wire
     (both modes) -/
 theorem healthy_drained (hl : cfg.sendLocked = true) (hbg : cfg.bgLocked = true) (hac : cfg.acLocked = true)
-    (hpl : cfg.procLocked = true) (acts : List Act) (s : St)
+    (hpl : cfg.procLocked = true) (hrr : cfg.recoverReports = true) (acts : List Act) (s : St)
     (hh : Healthy acts) (h : run cfg bytesOf acts init = some s) (hq : s.queue = []) (hp : s.pc 0 = .idle)
     (sid : Nat) (ha : (sid, true) ∈ s.results) : ∃ w, Whole bytesOf s w sid ∧ s.delivered w = s.sent w := by
-  rcases no_loss_locked cfg bytesOf hl hbg hac hpl acts s hh h sid ha with h1 | h1 | h1
+  rcases no_loss_locked cfg bytesOf hl hbg hac hpl hrr acts s hh h sid ha with h1 | h1 | h1
   · rw [hq] at h1; cases h1
   · rw [hp] at h1; rcases h1 with h2 | ⟨_, _, h2⟩ | ⟨_, h2⟩ <;> cases h2
   · exact h1
+
+/-! ### fault histories: errors at arbitrary byte offsets, reconnects, no re-send -/
+
+/-- Once a connection's buffered writer has failed, the connection is final: whatever the client
+    and the environment do afterwards — any schedule — the bytes it carried and the sends logged on
+    it stay as they are.  With `frames_whole`: the truncated frame stays the last thing on it. -/
+theorem dead_connection_is_final (acts : List Act) (s s' : St) (h : run cfg bytesOf acts s = some s') (w : Nat)
+    (hd : s.err.get w = true) : s'.err.get w = true ∧ s'.sent w = s.sent w ∧ s'.log.get w = s.log.get w :=
+  run_dead cfg bytesOf acts s s' h w hd
+
+/-- No re-send: the frame of a send is handed to at most one connection. -/
+theorem no_resend (hl : cfg.sendLocked = true) (s : St) (hr : Reach cfg bytesOf s) (c c' sid : Nat)
+    (h1 : sid ∈ s.log.get c) (h2 : sid ∈ s.log.get c') : c = c' :=
+  one_connection (core_reach cfg bytesOf hl hr).order c c' sid h1 h2
+
+/-- **Delivered whole, in order, at most once — over all connections.**  In every reachable state
+    there is a count `k c` per connection such that the peer of `c` received exactly the first
+    `k c` frames handed to `c` and then nothing or a strict prefix of the next one; the whole frames
+    of all connections, connection after connection, are strictly increasing in acceptance order
+    (no frame twice, on one or on two connections) and a subsequence of the accepted sends. -/
+theorem delivered_once (hl : cfg.sendLocked = true) (s : St) (hr : Reach cfg bytesOf s) :
+    ∃ k : Nat → Nat,
+      (∀ c, ∃ tail, s.delivered c = concatF bytesOf ((s.log.get c).take (k c)) ++ tail ∧
+          (tail = [] ∨ ∃ sid, (s.log.get c)[k c]? = some sid ∧ tail <+: bytesOf sid ∧ tail ≠ bytesOf sid)) ∧
+      (wholeFrames s k).Pairwise (· < ·) ∧ (wholeFrames s k).Sublist s.handed :=
+  Tcp.delivered_once cfg bytesOf (core_reach cfg bytesOf hl hr)
+
+/-- The same over **histories of calls**: any list of sends that succeed, dials that fail, writes
+    and flushes that fail after an arbitrary number of bytes, peer closes after an arbitrary number
+    of bytes, `Close()` calls and idle periods (`Tcp.HEv`, run as a fold over the action machine). -/
+theorem fault_histories (hl : cfg.sendLocked = true) (es : List HEv) (s : St)
+    (h : runHist cfg bytesOf es init = some s) :
+    ∃ k : Nat → Nat,
+      (∀ c, ∃ tail, s.delivered c = concatF bytesOf ((s.log.get c).take (k c)) ++ tail ∧
+          (tail = [] ∨ ∃ sid, (s.log.get c)[k c]? = some sid ∧ tail <+: bytesOf sid ∧ tail ≠ bytesOf sid)) ∧
+      (wholeFrames s k).Pairwise (· < ·) ∧ (wholeFrames s k).Sublist s.handed :=
+  Tcp.fault_histories cfg bytesOf hl es s h
+
+/-- **A write error at any byte offset `k`**: exactly `k` more bytes are on the connection, the
+    writer is in error, the client has closed, the send is reported as failed, the lock is free. -/
+theorem write_fault_at_any_offset {s : St} {t sid w k : Nat} (ht : t ≠ 0) (hp : s.pc t = .made sid) (hw : s.wr = some w)
+    (hc : s.conn ≠ none) (he : s.err.get w = false) (hne : bytesOf sid ≠ [])
+    (hk : k ≤ (s.buf.get w ++ bytesOf sid).length) :
+    ∃ s', run cfg bytesOf (writeFaultTail t (bytesOf sid).length k) s = some s' ∧
+      s'.sent w = s.sent w ++ (s.buf.get w ++ bytesOf sid).take k ∧ s'.err.get w = true ∧ s'.conn = none ∧
+      s'.results = (sid, false) :: s.results ∧ s'.log.get w = s.log.get w ++ [sid] ∧ s'.lock = none ∧
+      s'.pc t = .idle ∧ s'.nsid = s.nsid ∧ (∀ w', w ≠ w' → s'.sent w' = s.sent w') :=
+  write_fault_at cfg bytesOf ht hp hw hc he hne hk
+
+/-- **A flush error at any byte offset `k`** (short of everything). -/
+theorem flush_fault_at_any_offset {s : St} {t sid w k : Nat} (ht : t ≠ 0) (hp : s.pc t = .made sid) (hw : s.wr = some w)
+    (hc : s.conn ≠ none) (he : s.err.get w = false) (hne : bytesOf sid ≠ [])
+    (hk : k < (s.buf.get w ++ bytesOf sid).length) :
+    ∃ s', run cfg bytesOf (flushFaultTail t (bytesOf sid).length k) s = some s' ∧
+      s'.sent w = s.sent w ++ (s.buf.get w ++ bytesOf sid).take k ∧ s'.err.get w = true ∧
+      s'.results = (sid, false) :: s.results ∧ s'.log.get w = s.log.get w ++ [sid] ∧ s'.lock = none ∧
+      s'.pc t = .idle ∧ s'.nsid = s.nsid ∧ (∀ w', w ≠ w' → s'.sent w' = s.sent w') :=
+  flush_fault_at cfg bytesOf ht hp hw hc he hne hk
+
+/-- **Write error at byte `k`, then reconnect** — from any reachable state with a connection up on a
+    clean writer `w`, for every `k`: the history `[writeFault t k, ok t]` is admitted; connection
+    `w` carried exactly `k` bytes more and never changes again; the failed send is reported failed
+    and its frame is on no other connection (never re-sent); the next send is accepted and whole
+    on a connection. -/
+theorem fault_then_reconnect (hl : cfg.sendLocked = true) (hra : cfg.rearm = true) (hq : cfg.useQueue = false)
+    (hne : ∀ sid, bytesOf sid ≠ []) (s : St) (hr : Reach cfg bytesOf s) (t w : Nat) (ht : t ≠ 0)
+    (hidle : s.pc t = .idle) (hlock : s.lock = none) (hc : s.conn ≠ none) (hw : s.wr = some w) (he : s.err.get w = false)
+    (k : Nat) (hk : k ≤ (s.buf.get w ++ bytesOf s.nsid).length) :
+    ∃ s1 s2, runHist cfg bytesOf [.writeFault t k] s = some s1 ∧ runHist cfg bytesOf [.ok t] s1 = some s2 ∧
+      s1.sent w = s.sent w ++ (s.buf.get w ++ bytesOf s.nsid).take k ∧
+      (s.nsid, false) ∈ s2.results ∧ (s.nsid + 1, true) ∈ s2.results ∧ (∃ w', Whole bytesOf s2 w' (s.nsid + 1)) ∧
+      (∀ c, s.nsid ∈ s2.log.get c → c = w) ∧
+      (∀ acts s3, run cfg bytesOf acts s1 = some s3 → s3.sent w = s1.sent w) :=
+  Tcp.fault_then_reconnect cfg bytesOf hl hra hq hne s hr t w ht hidle hlock hc hw he k hk
+
+/-! ### Close() racing a send -/
+
+/-- **Every schedule of sends ∥ Close() leaves whole frames.**  The public `Close()` takes no lock
+    (`extClose`, enabled whenever its caller is between calls); whatever it interleaves with — a
+    sender before its nil test, inside `wr.Write`, before `Flush` — and whether or not `send()`'s
+    recover() swallows the resulting panic (`swallow`): each connection received whole frames of
+    accepted sends, in order, then at most a strict prefix of the next; nothing twice. -/
+theorem close_race_whole_frames (hl : cfg.sendLocked = true) (acts : List Act) (s : St)
+    (h : run cfg bytesOf acts init = some s) :
+    (∀ c, WholeThenTail bytesOf (s.log.get c) (s.delivered c)) ∧
+    (flatLogs s).Pairwise (· < ·) ∧ (flatLogs s).Sublist s.handed :=
+  ⟨fun c => frames_whole_delivered cfg bytesOf hl s ⟨acts, h⟩ c,
+   (order_once cfg bytesOf hl s ⟨acts, h⟩).1, (order_once cfg bytesOf hl s ⟨acts, h⟩).2.2.2⟩
+
+/-- `Close()` is not a fault: the no-loss theorem `healthy_no_loss` covers every interleaving of
+    `Close()` calls with sends, provided recover() reports (`recoverReports`; `finding_D71` is the
+    counterexample without) -/
+theorem close_is_healthy (t : Nat) : (Act.extClose t).isFault = false := rfl
+
+theorem close_race_no_loss (hl : cfg.sendLocked = true) (hbg : cfg.bgLocked = true) (hac : cfg.acLocked = true)
+    (hpl : cfg.procLocked = true) (hrr : cfg.recoverReports = true) (pre post : List Act) (t : Nat) (s : St)
+    (hh : Healthy pre) (hh' : Healthy post) (h : run cfg bytesOf (pre ++ .extClose t :: post) init = some s) :
+    NothingLost bytesOf s := by
+  refine no_loss_locked cfg bytesOf hl hbg hac hpl hrr _ s ?_ h
+  intro a ha
+  rcases List.mem_append.mp ha with h1 | h1
+  · exact hh a h1
+  · rcases List.mem_cons.mp h1 with rfl | h2
+    · rfl
+    · exact hh' a h2
 
 /-! ### the code as found: D42 (process() connects without the lock), D70 (ApplyConfig and process()'s
     sends without the lock), and what re-arming the deadline is for -/
@@ -259,11 +365,14 @@ theorem healthy_drained (hl : cfg.sendLocked = true) (hbg : cfg.bgLocked = true)
 set_option synthInstance.maxSize 1024
 
 def cfgFixed : Cfg :=
-  { useQueue := false, sendLocked := true, bgLocked := true, procLocked := true, acLocked := true, rearm := true }
+  { useQueue := false, sendLocked := true, bgLocked := true, procLocked := true, acLocked := true, rearm := true,
+    recoverReports := true }
 /-- the client as first found -/
-def cfgFound : Cfg := { cfgFixed with bgLocked := false, procLocked := false, acLocked := false }
+def cfgFound : Cfg := { cfgFixed with bgLocked := false, procLocked := false, acLocked := false, recoverReports := false }
 /-- after fix-D42 only -/
-def cfgD70 : Cfg := { cfgFixed with procLocked := false, acLocked := false }
+def cfgD70 : Cfg := { cfgFixed with procLocked := false, acLocked := false, recoverReports := false }
+/-- after fix-D42 and fix-D70: every lock in place, `send()`'s recover() still returns nil -/
+def cfgD71 : Cfg := { cfgFixed with recoverReports := false }
 def threeBytes : Nat → Bytes := fun sid => [10, 0, sid]
 
 /-- no end state of these schedules has anything on the wire -/
@@ -271,7 +380,7 @@ theorem nothing_sent_of {s : St} (h : s.sentRev.toList.map Prod.snd = [[]] ∨ s
     (w : Nat) : s.sent w = [] := by
   have : s.sentRev.get w = [] := AMap.get_eq_of_forall s.sentRev [] rfl (fun p hp => by
     have hm : p.2 ∈ s.sentRev.toList.map Prod.snd := List.mem_map.mpr ⟨p, hp, rfl⟩
-    rcases h with h | h <;> rw [h] at hm <;> simpa using hm) w
+    rcases h with h | h <;> rw [h] at hm <;> simp at hm) w
   simp [St.sent, this]
 
 /-- a schedule after which send `1` was accepted, nobody is in progress, the queue is empty and
@@ -365,6 +474,38 @@ theorem finding_D70_queue :
 
 theorem scheduleD70q_not_fixed : run cfgQueueFixed threeBytes scheduleD70q init = none := by decide
 
+/-- D71 (all locks in place): sender 1 holds the send lock and has passed `send()`'s `conn == nil` test;
+    thread 2 calls the public `Close()` — which takes no lock — and `conn` becomes nil; the sender's
+    `conn.SetWriteDeadline` dereferences nil, `send()`'s deferred `recover()` swallows the panic and
+    `send()` returns nil; `Flush()` of the (empty) writer succeeds; Send returns nil.  The frame was
+    never written. -/
+def scheduleD71 : List Act :=
+  [.bgConnectOk, .lockSend 1 1, .extClose 2, .swallow 1, .flushOk 1, .unlock 1]
+
+theorem scheduleD71_healthy : Healthy scheduleD71 := by decide
+
+theorem scheduleD71_runs :
+    (run cfgD71 threeBytes scheduleD71 init).map (fun s => (s.results, s.sentRev.toList.map Prod.snd)) = some ([(1, true)], [[]]) ∧
+    (run cfgD71 threeBytes scheduleD71 init).map (fun s => (s.queue, s.pcs.get 0)) = some ([], Pc.idle) := by
+  constructor <;> decide
+
+theorem finding_D71 :
+    ¬ (∀ (acts : List Act) (s : St), Healthy acts → run cfgD71 threeBytes acts init = some s →
+        NothingLost threeBytes s) :=
+  refutes_nothingLost scheduleD71_healthy scheduleD71_runs.1 scheduleD71_runs.2
+
+/-- once recover() reports the panic as an error the schedule is no schedule of the client: the
+    send cannot come back with nil -/
+theorem scheduleD71_not_fixed : run cfgFixed threeBytes scheduleD71 init = none := by decide
+
+/-- … the same race then ends in a reported failure (`connectFail` stands for "send() returned an
+    error before anything was written"), or — had the test come after the Close — in a reconnect -/
+example : (run cfgFixed threeBytes [.bgConnectOk, .lockSend 1 1, .extClose 2, .connectFail 1, .close 1, .unlock 1] init).map
+    (fun s => s.results) = some [(1, false)] := by decide
+example : (run cfgFixed threeBytes [.bgConnectOk, .lockSend 1 1, .extClose 2, .connectOk 1, .writeBegin 1, .writeChunk 1 3,
+    .writeEnd 1, .extClose 2, .flushOk 1, .unlock 1] init).map (fun s => (s.results, s.delivered 0, s.delivered 1)) =
+    some ([(1, true)], [], [10, 0, 1]) := by decide
+
 /-- What re-arming is for.  If the write deadline were armed once, when the connection is made
     (`rearm = false`), a healthy connection that idles longer than the timeout could not complete
     its next flush: the only continuation is the error.  With re-arming the same schedule runs. -/
@@ -426,6 +567,23 @@ example : (run cfgFixed threeBytes scheduleFaulty init).map (fun s => s.results)
 
 example : Reach cfgFixed threeBytes ((run cfgFixed threeBytes scheduleFaulty init).get (by decide)) :=
   ⟨scheduleFaulty, by simp⟩
+
+/-- a fault history: send; write fault after 2 bytes; send (reconnects); the peer cuts connection 1 after
+    2 bytes; flush fault after 1 byte; a send that meets the sticky error; 70 s idle; send (reconnects);
+    Close(); dial fault; send (reconnects).  Four connections; the peers received frame 1 and two bytes
+    of frame 2 | two bytes of frame 3 | frame 6 | frame 8; nothing twice; failures reported. -/
+def historyFaulty : List HEv :=
+  [.ok 1, .writeFault 2 2, .ok 1, .cut 1 2, .flushFault 2 1, .writeFault 1 0, .idle 70000, .ok 2, .close 1, .dialFault 2, .ok 1]
+
+example : (runHist cfgFixed threeBytes historyFaulty init).map
+      (fun s => ((List.range s.next).map (fun c => (s.delivered c, s.log.get c)), s.results)) =
+    some ([([10, 0, 1, 10, 0], [1, 2]), ([10, 0], [3, 4]), ([10, 0, 6], [6]), ([10, 0, 8], [8])],
+          [(8, true), (7, false), (6, true), (5, false), (4, false), (3, true), (2, false), (1, true)]) := by decide
+/-- every fault offset of a 3-byte frame is admitted, none beyond it -/
+example : (List.range 5).map (fun k => (runHist cfgFixed threeBytes [.ok 1, .writeFault 1 k] init).isSome) =
+    [true, true, true, true, false] := by decide
+example : (List.range 5).map (fun k => (runHist cfgFixed threeBytes [.ok 1, .flushFault 1 k] init).isSome) =
+    [true, true, true, false, false] := by decide
 
 /-- queue mode, repaired client: capacity 2, two packs accepted, the third refused (C11: full), the
     capacity raised, a fourth accepted; process() connects and sends under the lock; ApplyConfig
